@@ -14,6 +14,7 @@ import (
 // Scenario is one closed driver: Setup builds a fresh object under test and starts the threads, Check is the oracle.
 type Scenario struct {
 	Name  string
+	Bound int // if > 0: deviation bound of this scenario (overrides the bound of the exploration)
 	Setup func(s *Sched) World
 	Check func(x *Execution, w World) (string, *Verdict)
 }
@@ -68,7 +69,11 @@ func ExploreScenarios(rep *vrep.Report, part string, scs []Scenario, maxBound, m
 	for _, sc := range scs {
 		sc := sc
 		found := false
-		for bound := 0; bound <= maxBound && !found; bound++ {
+		scBound := maxBound
+		if sc.Bound > 0 {
+			scBound = sc.Bound
+		}
+		for bound := 0; bound <= scBound && !found; bound++ {
 			e := &Explorer{Opt: Options{Bound: bound, MaxSteps: maxSteps, Shard: shard, Shards: shards, Deadline: deadline}, Setup: sc.Setup, Check: sc.Check}
 			sigs := map[string]bool{}
 			e.OnViol = func(x *Execution, v *Verdict) {
@@ -108,7 +113,7 @@ func ExploreScenarios(rep *vrep.Report, part string, scs []Scenario, maxBound, m
 			if st.Capped {
 				rep.NotExhaustive(fmt.Sprintf("%s [%s] bound %d stopped at the time cap after %d executions", part, sc.Name, bound, st.Executions))
 			}
-			if bound == maxBound || found || st.Capped {
+			if bound == scBound || found || st.Capped {
 				rep.Sample(map[string]interface{}{"part": part, "scenario": sc.Name, "bound_completed": st.BoundDone, "executions_at_this_bound": st.Executions, "distinct_outcomes": len(st.Outcomes),
 					"first_schedule": FormatChoices(st.FirstChoices), "last_schedule": FormatChoices(st.LastChoices), "blocked_sets_at_termination": len(st.BlockedSets)})
 			}
